@@ -1284,3 +1284,135 @@ Proof.
   - left. apply (weights_all_pos beta H D E (nth (gp_inner p) D dummy_dp)); [apply nth_In; exact Li|exact Wm].
   - apply (discarded_weights_small eps D (gp_inner p) Li Ei). exact Wm.
 Qed.
+
+(** *** Dynamical susceptibility on the imaginary axis: |chi_trunc(iW) - chi(iW)| <= beta eps dim *)
+
+(** One term of SusceptibilityPart::compute (SusceptibilityPart.cpp:52-86): matrix elements <n|A|m>, <m|B|n>,
+    weights w_n (outer) and w_m (inner), pole E_m - E_n; [st_keep] = false models a residue below the library's
+    threshold (dropped in both runs alike). *)
+Record sterm := mk_sterm { st_a : C; st_b : C; st_wn : R; st_wm : R; st_pole : R; st_keep : bool }.
+(** value at z: a pole below the resonance tolerance contributes beta a b w_n at zero frequency only
+    (ZeroPoleWeight * beta, SusceptibilityPart.h:153-157), any other pole -Residue/(z - pole) with
+    Residue = a b (w_n - w_m) (SusceptibilityPart.cpp:8) *)
+Definition sterm_val (beta tol : R) (zero_freq : bool) (z : C) (t : sterm) : C :=
+  if Rltb (Rabs (st_pole t)) tol
+  then (if zero_freq then Cmult (Cmult (RtoC beta) (Cmult (st_a t) (st_b t))) (RtoC (st_wn t)) else RtoC 0)
+  else if st_keep t
+       then Copp (Cdiv (Cmult (Cmult (st_a t) (st_b t)) (RtoC (st_wn t - st_wm t))) (Cminus z (RtoC (st_pole t))))
+       else RtoC 0.
+Record suscpart := mk_suscpart { sp_outer : nat; sp_inner : nat; sp_rows : list (list sterm) }.
+Definition suscpart_val beta tol zf (z : C) (p : suscpart) : C := csum (fun row => csum (sterm_val beta tol zf z) row) (sp_rows p).
+Definition susc_val beta tol zf (z : C) (parts : list suscpart) : C := csum (suscpart_val beta tol zf z) parts.
+Definition suscpart_kept (ret : nat -> bool) (p : suscpart) : bool := ret (sp_outer p) || ret (sp_inner p).
+
+(** |w_n - w_m| <= beta |P| max(w_n, w_m) for Gibbs weights w_m = w_n exp(-beta P) *)
+Lemma gibbs_weight_difference (beta P wn wm : R) :
+  0 <= beta -> 0 <= wn -> 0 <= wm -> wm = wn * exp (- beta * P) ->
+  Rabs (wn - wm) <= beta * Rabs P * Rmax wn wm.
+Proof.
+  intros Hb Hn Hm E.
+  destruct (Rle_dec 0 P) as [HP|HP].
+  - (* P >= 0: w_m <= w_n *)
+    rewrite (Rabs_pos_eq P HP).
+    pose proof (exp_ineq1_le (- beta * P)) as I. pose proof (exp_pos (- beta * P)) as Pe.
+    assert (exp (- beta * P) <= 1).
+    { rewrite <- exp_0. destruct (Req_dec (- beta * P) 0) as [E0|N0]; [rewrite E0; lra|]. left. apply exp_increasing. nra. }
+    assert (0 <= wn - wm <= wn * (beta * P)).
+    { rewrite E. split; nra. }
+    rewrite Rabs_pos_eq by lra. pose proof (Rmax_l wn wm). assert (0 <= beta * P) by nra. nra.
+  - (* P < 0: w_n = w_m exp(beta P) <= w_m *)
+    assert (HP' : P < 0) by lra. rewrite (Rabs_left P HP').
+    assert (En : wn = wm * exp (beta * P)).
+    { rewrite E, Rmult_assoc, <- exp_plus. replace (- beta * P + beta * P) with 0 by ring. rewrite exp_0. ring. }
+    pose proof (exp_ineq1_le (beta * P)) as I. pose proof (exp_pos (beta * P)) as Pe.
+    assert (exp (beta * P) <= 1).
+    { rewrite <- exp_0. destruct (Req_dec (beta * P) 0) as [E0|N0]; [rewrite E0; lra|]. left. apply exp_increasing. nra. }
+    assert (0 <= wm - wn <= wm * (beta * - P)).
+    { rewrite En. split; nra. }
+    rewrite Rabs_left1 by lra. pose proof (Rmax_r wn wm). assert (0 <= beta * - P) by nra. nra.
+Qed.
+
+Lemma Cmod_imag_minus_real (z : C) (p : R) : fst z = 0 -> Rabs p <= Cmod (Cminus z (RtoC p)).
+Proof.
+  intros Hz. eapply Rle_trans; [|apply Rmax_Cmod]. destruct z as [x y]. cbn [fst snd Cminus Cplus Copp RtoC] in *.
+  subst x. rewrite Rplus_0_l, Rabs_Ropp. apply Rmax_l.
+Qed.
+
+Lemma sterm_val_bound (beta tol : R) (zf : bool) (z : C) (t : sterm) (eps : R) :
+  0 <= beta -> 0 < tol -> fst z = 0 ->
+  0 <= st_wn t <= eps -> 0 <= st_wm t <= eps -> st_wm t = st_wn t * exp (- beta * st_pole t) ->
+  Cmod (sterm_val beta tol zf z t) <= Cmod (st_a t) * Cmod (st_b t) * (beta * eps).
+Proof.
+  intros Hb Ht Hz Hn Hm E. unfold sterm_val.
+  pose proof (Cmod_ge_0 (st_a t)) as Pa. pose proof (Cmod_ge_0 (st_b t)) as Pb.
+  assert (P0 : 0 <= Cmod (st_a t) * Cmod (st_b t) * (beta * eps)).
+  { apply Rmult_le_pos; [apply Rmult_le_pos; assumption|apply Rmult_le_pos; lra]. }
+  destruct (Rltb (Rabs (st_pole t)) tol) eqn:Er.
+  - destruct zf; [|rewrite Cmod_0; exact P0].
+    rewrite !Cmod_mult, !Cmod_R, (Rabs_pos_eq beta Hb), (Rabs_pos_eq (st_wn t)) by lra.
+    replace (beta * (Cmod (st_a t) * Cmod (st_b t)) * st_wn t) with (Cmod (st_a t) * Cmod (st_b t) * (beta * st_wn t)) by ring.
+    apply Rmult_le_compat_l; [apply Rmult_le_pos; assumption|]. apply Rmult_le_compat_l; lra.
+  - destruct (st_keep t); [|rewrite Cmod_0; exact P0].
+    apply Rltb_false in Er.
+    assert (PP : 0 < Rabs (st_pole t)) by lra.
+    pose proof (Cmod_imag_minus_real z (st_pole t) Hz) as Hd.
+    assert (Nz : Cminus z (RtoC (st_pole t)) <> RtoC 0).
+    { intros E0. rewrite E0, Cmod_0 in Hd. lra. }
+    rewrite Cmod_opp, Cmod_div by exact Nz. rewrite !Cmod_mult, Cmod_R.
+    pose proof (gibbs_weight_difference beta (st_pole t) (st_wn t) (st_wm t) Hb (proj1 Hn) (proj1 Hm) E) as G.
+    assert (Mx : Rmax (st_wn t) (st_wm t) <= eps) by (apply Rmax_lub; lra).
+    assert (Q : Rabs (st_wn t - st_wm t) * / Cmod (Cminus z (RtoC (st_pole t))) <= beta * eps).
+    { apply Rle_trans with (beta * Rabs (st_pole t) * eps * / Rabs (st_pole t)).
+      - apply Rmult_le_compat; [apply Rabs_pos|left; apply Rinv_0_lt_compat; lra| |apply Rinv_le_contravar; lra].
+        eapply Rle_trans; [exact G|]. apply Rmult_le_compat_l; [apply Rmult_le_pos; lra|exact Mx].
+      - right. field. lra. }
+    unfold Rdiv.
+    replace (Cmod (st_a t) * Cmod (st_b t) * Rabs (st_wn t - st_wm t) * / Cmod (Cminus z (RtoC (st_pole t))))
+      with (Cmod (st_a t) * Cmod (st_b t) * (Rabs (st_wn t - st_wm t) * / Cmod (Cminus z (RtoC (st_pole t))))) by ring.
+    apply Rmult_le_compat_l; [apply Rmult_le_pos; assumption|exact Q].
+Qed.
+
+Lemma sum_product_le_one {A} (f g : A -> R) (l : list A) :
+  lsum (fun t => f t * f t) l <= 1 -> lsum (fun t => g t * g t) l <= 1 -> lsum (fun t => f t * g t) l <= 1.
+Proof.
+  intros H1 H2.
+  assert (lsum (fun t => f t * g t) l <= lsum (fun t => / 2 * (f t * f t) + / 2 * (g t * g t)) l).
+  { apply lsum_le. intros t _. pose proof (Rle_0_sqr (f t - g t)) as S. unfold Rsqr in S. lra. }
+  rewrite lsum_plus, !lsum_scal in H. lra.
+Qed.
+
+(** |chi_trunc(z) - chi(z)| <= beta eps dim for z on the imaginary axis (all bosonic Matsubara frequencies,
+    including zero).  Named hypotheses: dropped_terms_gibbs (in a part with both blocks discarded every term has
+    both weights in [0, eps] and they are in the Gibbs ratio -- weights_ratio), row_norm_a, row_norm_b
+    (rows of A = c^+_a c_b and columns of B have norm <= 1), outer_sizes. *)
+Theorem susc_truncation_bound (parts : list suscpart) (ret : nat -> bool) (beta tol eps dim : R) (zf : bool) (z : C) :
+  0 <= beta -> 0 < tol -> 0 <= eps -> fst z = 0 ->
+  (* dropped_terms_gibbs *)
+  (forall p row t, In p parts -> suscpart_kept ret p = false -> In row (sp_rows p) -> In t row ->
+     0 <= st_wn t <= eps /\ 0 <= st_wm t <= eps /\ st_wm t = st_wn t * exp (- beta * st_pole t)) ->
+  (* row_norm_a *)
+  (forall p row, In p parts -> In row (sp_rows p) -> lsum (fun t => Cmod (st_a t) * Cmod (st_a t)) row <= 1) ->
+  (* row_norm_b *)
+  (forall p row, In p parts -> In row (sp_rows p) -> lsum (fun t => Cmod (st_b t) * Cmod (st_b t)) row <= 1) ->
+  (* outer_sizes *)
+  lsum (fun p => INR (length (sp_rows p))) parts <= dim ->
+  Cmod (Cminus (susc_val beta tol zf z (filter (suscpart_kept ret) parts)) (susc_val beta tol zf z parts)) <= beta * eps * dim.
+Proof.
+  intros Hb Ht He Hz Hw Ha Hbn Hdim. unfold susc_val. rewrite csum_filter_diff.
+  set (k := beta * eps). assert (Hk : 0 <= k) by (apply Rmult_le_pos; assumption).
+  eapply Rle_trans; [apply Cmod_csum_le|].
+  eapply Rle_trans.
+  - apply (lsum_le _ (fun p => INR (length (sp_rows p)) * k)). intros p Hp.
+    destruct (suscpart_kept ret p) eqn:Ek.
+    + rewrite Cmod_0. apply Rmult_le_pos; [apply pos_INR|exact Hk].
+    + rewrite Cmod_opp. unfold suscpart_val. eapply Rle_trans; [apply Cmod_csum_le|].
+      eapply Rle_trans; [apply (lsum_le _ (fun _ => k))|rewrite lsum_const; lra].
+      intros row Hrow. eapply Rle_trans; [apply Cmod_csum_le|].
+      eapply Rle_trans.
+      * apply (lsum_le _ (fun t => Cmod (st_a t) * Cmod (st_b t) * k)). intros t Htr.
+        destruct (Hw p row t Hp Ek Hrow Htr) as [W1 [W2 W3]]. apply sterm_val_bound; assumption.
+      * rewrite lsum_scal_r. rewrite <- (Rmult_1_l k) at 2. apply Rmult_le_compat_r; [exact Hk|].
+        apply (sum_product_le_one (fun t => Cmod (st_a t)) (fun t => Cmod (st_b t))); [apply (Ha p row Hp Hrow)|apply (Hbn p row Hp Hrow)].
+  - rewrite lsum_scal_r. rewrite (Rmult_comm k dim).
+    apply Rmult_le_compat_r; [exact Hk|exact Hdim].
+Qed.
